@@ -56,6 +56,9 @@ type Program struct {
 
 	LoadSecs, SSASecs, CGSecs float64
 	NPackagesLoaded           int
+	// ExtraEnv is the extra environment the tree was loaded with (GOARCH=386,
+	// GOOS=windows in the thorough platform matrix); empty for the host load.
+	ExtraEnv []string
 }
 
 // Load type-checks and builds SSA for the working tree at root.
@@ -97,6 +100,7 @@ func Load(root string, extraEnv ...string) (*Program, error) {
 		funcs:   map[string]*ssa.Function{},
 	}
 	p.NPackagesLoaded = len(pkgs)
+	p.ExtraEnv = extraEnv
 	p.Fset = pkgs[0].Fset
 	p.LoadSecs = time.Since(t0).Seconds()
 
